@@ -30,7 +30,7 @@ CHECKS = {
          "Scope of the property is enforced by the generator: all pending due times within 2^31 ticks after the current time."),
  "C03": ("seeded scheduler histories checking every returned wake-up time against the reference scheduler state; discrete-event flush that sleeps exactly as told",
          "Every value returned by fibre_scheduler_next in the C01/C02-style histories (both swarms) is compared with the reference: t if anything is runnable on return (run queue, the fibre that just yielded, an accepted undrained atomic request), else the earliest pending due time, else t+FIBRE_UNBOUNDED_SLEEP; the closing flush sleeps exactly until the returned time and every owed dispatch must still happen.",
-         "Part (a) is sequential histories (h_fibre); part (b) (h_irq, sim flavour) places interrupts inside fibre_scheduler_next and, whenever the scheduler says sleep, re-runs a pass at the same instant with interrupts held off: a dispatch there is excused only by a request published after the scheduler's last look at the wake-up queue, and no known pending timeout may lie before the returned time."),
+         "Part (c) runs the real POSIX main loop (posix/fibre_posix.c) on the simulated clock with time_now() and a link-time wrapped usleep() as seams and judges every decision to sleep against the pending timeouts and runnable fibres. Part (a) is sequential histories (h_fibre); part (b) (h_irq, sim flavour) places interrupts inside fibre_scheduler_next and, whenever the scheduler says sleep, re-runs a pass at the same instant with interrupts held off: a dispatch there is excused only by a request published after the scheduler's last look at the wake-up queue, and no known pending timeout may lie before the returned time."),
  "C10": ("seeded (geometry, history) pairs against a bounded-FIFO reference model; both construction routes in lock step; ASan exact-size storage",
          "Seeded exploration over queue depth 1..32 (weight on 1, 2, 31, 32), message size 1..40, slack bytes and construction route (messageq_init, MESSAGEQ_VAR_INIT with run-time values, or both in lock step) with histories of claim, reordered send, receive, delayed release and empty; every pointer/NULL result is compared with a cyclic-counter/FIFO model and slack bytes are checked after every operation.",
          "Sequential histories only (concurrency is C04); releases follow receives and sends name claimed buffers (the API's rules)."),
